@@ -84,6 +84,7 @@ pub fn supervise_check(prop: &str, tier: Tier) -> ! {
     let exe = std::env::current_exe().expect("current_exe");
     let dir = verif_root().join("sim").join("scratch").join(format!("inflight-{}", std::process::id()));
     let mut skip: Vec<u64> = crate::watchdog::skipped_seeds();
+    let mut unexplained_deaths = 0u32;
     loop {
         let _ = std::fs::remove_dir_all(&dir);
         let _ = std::fs::create_dir_all(&dir);
@@ -117,8 +118,22 @@ pub fn supervise_check(prop: &str, tier: Tier) -> ! {
             }
         }
         if culprits.is_empty() {
-            eprintln!("HARNESS ERROR: the {} check process died ({}) and none of the {} runs that were in flight dies when executed alone", prop, how, candidates.len());
-            std::process::exit(2);
+            // not reproducible in isolation (the death depends on the process's history, e.g. heap
+            // corruption by the code under test): set all the runs that were in flight aside once
+            // and go on; if the batch keeps dying, give up
+            if unexplained_deaths >= 2 || candidates.is_empty() {
+                eprintln!("HARNESS ERROR: the {} check process died ({}) {} times and none of the runs that were in flight dies when executed alone (the code under test corrupts its process; bin/check C09 may show how)", prop, how, unexplained_deaths + 1);
+                std::process::exit(2);
+            }
+            unexplained_deaths += 1;
+            println!("note: the {} check process died ({}); none of the {} runs in flight dies when executed alone - restarting the batch without them", prop, how, candidates.len());
+            for (_, seed) in &candidates {
+                if !skip.contains(seed) {
+                    skip.push(*seed);
+                }
+            }
+            let _ = std::io::stdout().flush();
+            continue;
         }
         if prop == "C09" {
             let (_, seed, case, st) = &culprits[0];
@@ -144,7 +159,7 @@ pub fn supervise_check(prop: &str, tier: Tier) -> ! {
             }
         }
         let _ = std::io::stdout().flush();
-        if skip.len() > MAX_SKIPS {
+        if skip.len() > MAX_SKIPS + 16 * unexplained_deaths as usize {
             eprintln!("HARNESS ERROR: more than {} runs of the {} batch had to be set aside because they kill the process or never yield (C09 violations; bin/check C09 reports them with a replay file); the {} check cannot continue", MAX_SKIPS, prop, prop);
             std::process::exit(2);
         }
